@@ -5,6 +5,7 @@ import Driver.CmdC12
 import Driver.CmdC15
 import Driver.CmdC16
 import Driver.CmdC09
+import Driver.CmdC19
 /-
   Driver.Extra — per-property command handlers living in their own files (`Driver/CmdCxx.lean`).
   Each returns `none` for commands that are not its own.
@@ -12,4 +13,4 @@ import Driver.CmdC09
 open Lean
 
 def extraHandlers : List (String → Json → Option (Except String Json)) :=
-  [handleC18, handleC17, handleC12, handleC15, handleC16, handleC09]
+  [handleC18, handleC17, handleC12, handleC15, handleC16, handleC09, handleC19]
